@@ -621,6 +621,25 @@ def import_all() -> None:
         p = importlib.import_module(pkg)
         for mi in pkgutil.walk_packages(p.__path__, pkg + '.'):
             importlib.import_module(mi.name)
+    freeze_cache_clock()
+
+
+class _FrozenTime:
+    """exabgp.util.cache.Cache stamps itself with int(time.time()) on every access: the wall clock is not part of what a
+    message decodes to, and must not make two executions of the same sequence differ (it is owned here: one instant)."""
+
+    @staticmethod
+    def time() -> float:
+        return 1790000000.0
+
+
+def freeze_cache_clock() -> None:
+    try:
+        import exabgp.util.cache as cache_mod
+    except ImportError:
+        return
+    if hasattr(cache_mod, 'time'):
+        cache_mod.time = _FrozenTime
 
 
 def alone_fresh(mode: str, letter) -> dict:
